@@ -7,7 +7,7 @@
    (harness/src/bin/c19.rs, Capi/CapiCheck.v). *)
 From Coq Require Import List NArith Bool.
 From Coq Require Import String.
-From YV Require Import Gen.CapiEffects Capi.LastError Capi.Flags Capi.LastErrorProofs.
+From YV Require Import Gen.CapiEffects Capi.LastError Capi.Flags Capi.Values Capi.LastErrorProofs.
 Import ListNotations.
 Local Open Scope N_scope.
 
@@ -73,6 +73,32 @@ Theorem compiler_flags_named_identically :
   flags_table_ok = true.
 Proof. split; [exact flags_named_lemma|exact flags_table_ok_now]. Qed.
 Print Assumptions compiler_flags_named_identically.
+
+(* value plumbing, over the tables generated from capi/src (finite facts):
+   identifiers / namespaces: pointer and length of the same accessor; YRX_MATCH
+   offset/length = range().start / range().len(); every yara_x::MetaValue variant
+   is handled once, with its own declared tag, the union member named after the
+   tag and its payload unchanged; buffers take pointer and length from the same
+   vector; the scan callbacks run over matching_rules(), the iterators over the
+   rule's own metadata / patterns / tags / matches; the ten global setters pass
+   a value of the type in their name to set_global / define_global unchanged *)
+Theorem value_plumbing_ok :
+  out_params_ok = true /\ structs_ok = true /\ buffers_ok = true /\ loops_ok = true /\
+  c_strings_ok = true /\ meta_ok = true /\ setters_ok = true.
+Proof. exact values_parts. Qed.
+Print Assumptions value_plumbing_ok.
+
+Theorem match_offset_length_from_range : forall f e,
+  In ("yrx_pattern_iter_matches", "YRX_MATCH", f, e)%string struct_fields ->
+  (f = "offset" /\ e = "m.range().start")%string \/ (f = "length" /\ e = "m.range().len()")%string.
+Proof. exact match_fields_lemma. Qed.
+Print Assumptions match_offset_length_from_range.
+
+Theorem metadata_variants_tagged : forall v tag mem payload,
+  In (v, tag, mem, payload) meta_arms ->
+  In (v, tag, payload) expected_meta /\ member_of_tag tag = Some mem.
+Proof. exact meta_arms_lemma. Qed.
+Print Assumptions metadata_variants_tagged.
 
 (* non-vacuity: an admissible two-thread history in which thread 0 fails to
    compile, thread 1 succeeds, thread 0 reads its message *)
